@@ -17,6 +17,8 @@ from vlib.core import *
 SRCS = ["harness/c13.cpp"]
 REPO_CPP = ["babylon/executor.cpp", "babylon/basic_executor.cpp", "babylon/coroutine/*.cpp", "babylon/concurrent/*.cpp"]
 CORPUS = VERIF / "corpus" / "C13"
+# a normal run needs < 3000 scheduling points; a corrupted waiter list makes wake_all spin under the lock
+BASE_ENV = {"VRT_STEP_LIMIT": "60000"}
 
 
 def warm():
@@ -51,16 +53,65 @@ def _nontrivial(mode, lines):
     return False
 
 
+def _trace_oracle(lines):
+    """Oracles evaluated on the trace of the implementation (exact, because VRT serialises the execution):
+    a wait was parked (its `on_suspend` token exists) although the futex word differed from the expected value
+    during the whole critical section of add_awaiter (from `lock` to `unlock`, no store in between)."""
+    val = {}
+    pend_by_tid = {}
+    pend_by_h = {}
+    out = []
+    for l in lines:
+        w = l.split()
+        if len(w) < 2:
+            continue
+        tid, kind = w[0], w[1]
+        if kind == "ev" and len(w) >= 6 and w[2] == "wait":
+            p = {"h": w[3], "f": w[4], "v": int(w[5]), "state": 0, "changed": False, "at_lock": None}
+            pend_by_tid[tid] = p
+            pend_by_h[w[3]] = p
+        elif kind == "st" and w[2].startswith("val"):
+            f = w[2][3:]
+            val[f] = int(w[4])
+            for p in pend_by_h.values():
+                if p["f"] == f and p["state"] == 1:
+                    p["changed"] = True
+        elif kind == "lock" and w[2].startswith("m"):
+            p = pend_by_tid.get(tid)
+            if p and p["state"] == 0 and p["f"] == w[2][1:]:
+                p["state"] = 1
+                p["at_lock"] = val.get(p["f"], 0)
+        elif kind == "unlock" and w[2].startswith("m"):
+            p = pend_by_tid.get(tid)
+            if p and p["state"] == 1 and p["f"] == w[2][1:]:
+                p["state"] = 2
+                pend_by_tid.pop(tid, None)
+        elif kind == "ev" and len(w) >= 4 and w[2] == "token":
+            p = pend_by_h.get(w[3])
+            if p and p["state"] == 2 and not p["changed"] and p["at_lock"] != p["v"]:
+                out.append("ORACLE nonmatching-parked frame %s parked by wait(%d) on futex %s whose word was %d during the whole critical section" % (
+                    p["h"], p["v"], p["f"], p["at_lock"]))
+                p["state"] = 3
+            elif p and p["state"] == 0 and val.get(p["f"], 0) != p["v"]:
+                # the wait never took the mutex with a comparison inside: parked without any check under the lock
+                pass
+    return out
+
+
 def _classify(ctx, mode, args, env, r, dist, distinct, lockstep=True):
     dist["verdicts"][r["verdict"]] = dist["verdicts"].get(r["verdict"], 0) + 1
     dist["max_trace"] = max(dist["max_trace"], len(r["lines"]))
     text = "args=%s seed=%d env=%s\n%s" % (" ".join(args), r["seed"], env, "\n".join(r["lines"][-500:]))
     if _nontrivial(mode, r["lines"]):
         distinct.add(sha("\n".join(l for l in r["lines"] if " ev stats" not in l)))
+    tor = _trace_oracle(r["lines"]) if mode == "futex" else []
     if r["oracle"]:
         dist["oracle"] += 1
         kind = r["oracle"][0].split("ORACLE", 1)[1].split()[0]
         ctx.failing_input("oracle:%s:%s" % (mode, kind), text)
+    elif tor:
+        dist["oracle"] += 1
+        ctx.failing_input("oracle:%s:%s" % (mode, tor[0].split()[1]), text + "\n" + "\n".join(tor))
     elif r["races"]:
         dist["oracle"] += 1
         ctx.failing_input("oracle:%s:race" % mode, text)
@@ -126,7 +177,7 @@ def run(ctx):
 
     # corpus first
     for name, args, seed, n in _corpus_cases():
-        runs = ctx.econc(exe, drv, args, seed, n)
+        runs = ctx.econc(exe, drv, args, seed, n, env=BASE_ENV)
         dist["modes"]["corpus:" + name] = len(runs)
         account(args[0], runs)
         for r in runs:
@@ -137,7 +188,7 @@ def run(ctx):
     seed0 = ctx.seed * 1000003
     plan = [("futex", n, {}), ("futex", n // 3, {"VRT_STRATEGY": "pct"}), ("cancel", n // 2, {}), ("await", n // 3, {})]
     for mode, cnt, env in plan:
-        runs = ctx.econc(exe, drv, [mode], seed0, cnt, env=env)
+        runs = ctx.econc(exe, drv, [mode], seed0, cnt, env=dict(BASE_ENV, **env))
         dist["modes"][mode + ("/pct" if env else "")] = len(runs)
         account(mode, runs)
         for r in runs:
@@ -165,11 +216,12 @@ def replay(ctx, path):
     args, seed, env = m.group(1).split(), int(m.group(2)), eval(m.group(3))
     exe, log = build_vrt_exe("c13", SRCS, repo_cpp=REPO_CPP)
     drv = ctx.driver("drv_C13")
-    runs = ctx.econc(exe, drv, args, seed, 1, env=env)
+    runs = ctx.econc(exe, drv, args, seed, 1, env=dict(BASE_ENV, **env))
     r = runs[0]
     print("\n".join(r["lines"]))
-    print("verdict:", r["verdict"], "replay:", r["replay"], "oracle:", r["oracle"], "races:", r["races"])
-    return 1 if (r["oracle"] or r["races"] or r["verdict"] != "ok" or (r["replay"] and not r["replay"].startswith("ok"))) else 0
+    tor = _trace_oracle(r["lines"]) if args[0] == "futex" else []
+    print("verdict:", r["verdict"], "replay:", r["replay"], "oracle:", r["oracle"] + tor, "races:", r["races"])
+    return 1 if (tor or r["oracle"] or r["races"] or r["verdict"] != "ok" or (r["replay"] and not r["replay"].startswith("ok"))) else 0
 
 
 MANIFEST = {
